@@ -188,6 +188,9 @@ pub fn into_tokens(c: char, it: &mut Peekable<Chars>, state: &mut State) -> LexR
             let mut cur_offset = CaretPos::start();
             let mut cur_expr = String::new();
 
+            // caret in front of the next character of the literal
+            let mut cur_pos = state.pos.offset_pos(1);
+
             let mut closed = false;
             for c in it {
                 if !back_slash && build_cur_expr == 0 && c == '"' {
@@ -195,6 +198,7 @@ pub fn into_tokens(c: char, it: &mut Peekable<Chars>, state: &mut State) -> LexR
                     break;
                 }
                 string.push(c);
+                cur_pos = if c == '\n' { cur_pos.newline() } else { cur_pos.offset_pos(1) };
 
                 if !back_slash {
                     if build_cur_expr > 0 {
@@ -203,7 +207,7 @@ pub fn into_tokens(c: char, it: &mut Peekable<Chars>, state: &mut State) -> LexR
 
                     if c == '{' {
                         if build_cur_expr == 0 {
-                            cur_offset = state.pos.offset_pos(string.len() + 1);
+                            cur_offset = cur_pos;
                         }
                         build_cur_expr += 1;
                     } else if c == '}' && build_cur_expr > 0 {
